@@ -2276,6 +2276,8 @@ def _preprocess_kwargs_kv_pairs(
                 if isinstance(key.val, str):
                     if key in covered_keys:
                         continue
+                    # pairs are walked last to first: a later pair with the same key wins
+                    covered_keys.add(key)
                     out_items[key.val] = (pair.is_required, pair.value)
                     continue
                 else:
